@@ -386,6 +386,8 @@ class FakeSnowflakeCursor:
         if (
             cmd == "CREATE TABLE"
             and not transformed.args.get("exists")
+            # a temporary table (such as the helper table of MERGE) lives in duckdb's temp catalog, not in this schema
+            and not transformed.find(exp.TemporaryProperty)
             and (created := transformed.find(exp.Table))
             and (catalog := created.catalog or self._conn.database)
             and (schema := created.db or self._conn.schema)
